@@ -65,9 +65,13 @@ def routing(s0: int, s1: int, s2: int, maskD: int, ri: int, which: bool, pick: i
         n = b.node
         app = b.apps[1 if which else 0]
         mymask = maskB if which else maskA
-        for c in conns:
+        for i_, c in enumerate(conns):
             if c is not None:
                 c.hop_by_hop_seq._sequence = sq
+                if which:
+                    # a (late) watchdog answer arrives first: it may end the wait for a DWA, nothing else
+                    b.inject(c, B.dwa(B.PEER_HOSTS[i_], 5, 6))
+                    drain(c)
         seen = []
 
         def cb(node, a, message, peers):
